@@ -11,3 +11,35 @@ package appctl
 //@   property C20
 //@   mode int
 //@   ensures err == nil ==> c != nil
+
+//@ // A patch changes only what it sets (C20): after merging src into dst every singular
+//@ // section of dst is src's if src has one and dst's own otherwise - section by section,
+//@ // independently of which other sections the patch carries.
+//@ func mergeServerConfig(dst *pb.ServerConfig, src *pb.ServerConfig) (err error)
+//@   property C20
+//@   mode int
+//@   noframe
+//@   requires dst != nil && src != nil && dst != src
+//@   ensures err == nil
+//@   ensures old(src.Dns) != nil ==> dst.Dns == old(src.Dns)
+//@   ensures old(src.Dns) == nil ==> dst.Dns == old(dst.Dns)
+//@   ensures old(src.Egress) != nil ==> dst.Egress == old(src.Egress)
+//@   ensures old(src.Egress) == nil ==> dst.Egress == old(dst.Egress)
+//@   ensures old(src.TrafficPattern) != nil ==> dst.TrafficPattern == old(src.TrafficPattern)
+//@   ensures old(src.TrafficPattern) == nil ==> dst.TrafficPattern == old(dst.TrafficPattern)
+//@   ensures old(src.AdvancedSettings) != nil ==> dst.AdvancedSettings == old(src.AdvancedSettings)
+//@   ensures old(src.AdvancedSettings) == nil ==> dst.AdvancedSettings == old(dst.AdvancedSettings)
+//@   ensures dst.Mtu != nil && (old(src.Mtu) != nil ==> *dst.Mtu == old(*src.Mtu)) && (old(src.Mtu) == nil && old(dst.Mtu) != nil ==> *dst.Mtu == old(*dst.Mtu))
+//@   ensures dst.LoggingLevel != nil && (old(src.LoggingLevel) != nil ==> *dst.LoggingLevel == old(*src.LoggingLevel)) && (old(src.LoggingLevel) == nil && old(dst.LoggingLevel) != nil ==> *dst.LoggingLevel == old(*dst.LoggingLevel))
+//@   loop 1:
+//@     modifies nothing
+//@     invariant -1 <= rangeindex && rangeindex < 9223372036854775807
+//@   loop 2:
+//@     modifies nothing
+//@     invariant -1 <= rangeindex__2 && rangeindex__2 < 9223372036854775807
+//@   loop 3:
+//@     modifies nothing
+//@     invariant true
+//@   loop 4:
+//@     modifies nothing
+//@     invariant -1 <= rangeindex__3 && rangeindex__3 < 9223372036854775807
